@@ -127,7 +127,7 @@ def configs(rnd, n):
     # U-gram: several verified classes each offering a pack that needs a reverse rule (ordinary / an equivalence) or none
     for i in range(max(4, n // 8)):
         k = rnd.choice([1, 2, 2, 3])
-        out.append(dict(gram=[rnd.choice(["Y", "Y", "E", "E", "F", "S", "Q", "Q", "P", "K", "K", "R"]) for _ in range(k)], db=rnd.choice(["RuleDB", "RuleDBForgetStrategy", "RuleDBForest"]),
+        out.append(dict(gram=[rnd.choice(["Y", "Y", "E", "E", "F", "S", "Q", "Q", "P", "K", "K", "R", "Z", "Z"]) for _ in range(k)], db=rnd.choice(["RuleDB", "RuleDBForgetStrategy", "RuleDBForest"]),
                         seed=rnd.randrange(10**6), perc=rnd.choice([100, 20, 1]), smallest=False, expand_verified=False))
     return out
 
